@@ -338,6 +338,24 @@ func (c *ctx) termOf(v Val) *T {
 		if v.ptr.kind == pkHeap && len(v.ptr.path) == 0 {
 			return v.ptr.ref
 		}
+		if v.ptr.kind == pkHeap {
+			fieldsOnly := true
+			name := "iptr_" + sanitize(heapKey(v.ptr.base))
+			for _, e := range v.ptr.path {
+				if e.isIdx {
+					fieldsOnly = false
+				}
+				name += fmt.Sprintf("_%d", e.field)
+			}
+			if fieldsOnly {
+				if c.iptrs == nil {
+					c.iptrs = map[string]iptrInfo{}
+				}
+				c.iptrs[name] = iptrInfo{base: v.ptr.base, path: v.ptr.path}
+				c.d.fun(name, []string{"Int"}, "Int")
+				return app(name, "Int", v.ptr.ref)
+			}
+		}
 		panic(unsupported("interior or stack pointer escapes to memory"))
 	}
 	if v.fn != nil {
@@ -360,6 +378,11 @@ func (c *ctx) ptrOf(v Val) *Ptr {
 	pt, ok := v.typ.Underlying().(*types.Pointer)
 	if !ok {
 		panic("ptrOf: not a pointer type: " + v.typ.String())
+	}
+	if u := v.t.un(); len(u.args) == 1 {
+		if info, ok := c.iptrs[u.op]; ok {
+			return &Ptr{kind: pkHeap, ref: u.args[0], base: info.base, path: info.path}
+		}
 	}
 	return &Ptr{kind: pkHeap, ref: v.t, base: pt.Elem()}
 }
